@@ -79,6 +79,7 @@ def jobs(pid, tier):
         J.append(Job('k8_gc', dict(N=4, L=2, roots=0, nondet=True), need_outcomes=['collected', 'nothing_to_collect']))
         J.append(Job('k8_gc', dict(N=5, L=3, roots=0, nondet=not q), need_outcomes=['collected', 'nothing_to_collect']))
         J.append(Job('k8_gc', dict(N=4, L=3, roots=2, nondet=True), need_outcomes=['collected', 'nothing_to_collect']))
+        J.append(Job('k8_gc', dict(N=4, L=2, roots=-1, nondet=False), need_outcomes=['nothing_to_collect']))
         J.append(Job('refs', dict(N=4, L=2), need_outcomes=['incref', 'decref', 'decref_warned']))
         J.append(Job('k1_foa', dict(N=4, L=3, K=1), need_outcomes=FOA))
         J.append(Job('k7_swap', dict(N=4, L=2, x=0, K=2), need_outcomes=['swapped']))
